@@ -952,7 +952,9 @@ pub fn tcp_item(v: &View, rng: &mut Rng, want6: bool) -> Option<Item> {
     let mut s = tcp_opts_random(rng, true, None);
     s.sport = *rng.pick(&[40001u16, 40002, 1, 65535, PORT_EST_PEER]);
     s.dport = *rng.pick(&[PORT_LISTEN, PORT_LISTEN, PORT_LISTEN, PORT_EST, PORT_CONN_LOCAL, 81, 0]);
-    s.seq = *rng.pick(&[0u32, 1, 0x7fff_ffff, 0xffff_ffff, 0x1234_5678]);
+    // (the last two put the receive window of the new connection across 2^31 and across 2^32)
+    let (below_31, below_32) = (0x7fff_ffff - rng.below(1500) as u32, 0xffff_ffff - rng.below(1500) as u32);
+    s.seq = *rng.pick(&[0u32, 1, 0x7fff_ffff, 0xffff_ffff, 0x1234_5678, below_31, below_32]);
     s.wnd = *rng.pick(&[4096u16, 0, 65535, 1]);
     let kind;
     match rng.below(8) {
